@@ -49,9 +49,9 @@ def run(ctx):
     for k, rs in sorted(keys.items()):
         r = min(rs, key=lambda x: (len(x["nodes"]), len(x["tree"])))
         outs = [c for c in r["changes"] if c["p"][0] != "target" and c["w"] != "meta-shared-inode"]
-        ctx.violate(k, "restore changed a path outside the target: %s; snapshot tree [%s], pre-existing target/a=%s target/a/x=%s, overwrite=%s delete=%s sparse=%s select=%s (%d scenarios of this class)"
+        ctx.violate(k, "restore changed a path outside the target: %s; snapshot tree [%s], pre-existing target/a=%s target/a/x=%s, overwrite=%s delete=%s sparse=%s select=%s outside-dir-prefilled=%s (%d scenarios of this class)"
                     % ("; ".join("%s %s (%s)" % (c["w"], "/".join(c["p"]), c["d"]) for c in outs[:3]), r["tree"], r["env"]["pre"]["a"], r["env"]["pre"]["x"],
-                       r["env"]["overwrite"], r["env"]["delete"], r["env"]["sparse"], r["env"]["select"], len(rs)), r)
+                       r["env"]["overwrite"], r["env"]["delete"], r["env"]["sparse"], r["env"]["select"], r["env"].get("outx"), len(rs)), r)
     res = ctx.go_results[-1]
     cov = {"evaluations": n, "distinct_nontrivial": res["distinct_nontrivial"], "rule": res["rule"],
            "samples": verif.samples_from(lines, 3), "records_checked_by_tlc": n, "records_rejected": len(bad),
@@ -61,4 +61,4 @@ def run(ctx):
                          "observable state = type, size, sha256, link target, mode, mtime, owner, link count of every path of the sandbox (no atime/ctime); a metadata-only change of an outside inode that was hard-linked into the target before the restore is tolerated",
                          "errors reported by restore are ignored (the CLI continues after them)",
                          "symlink targets are relative paths to the sentinel directory/file next to the target; file system = the sandbox's ext4; root",
-                         "thorough: seeded 30% sample of the cross product (trees x environments, 'leaves' selection only for trees with a directory) with --sparse chosen by parity; quick: seeded 1% sample"])
+                         "the cross product trees x environments (non-'all' selections only for trees with a directory) is sampled with weights: three-node same-name sequences 0.25, trees with inconsistent fields 4, three-level trees 3, others 1; base probability 0.8% (quick) / 20% with --sparse chosen by parity (thorough)"])
